@@ -20,7 +20,7 @@ def J(engine, variant="san", quick=None, thorough=None, **kw):
 PROPERTIES = {
     "C05": {
         "rule": "rapidcheck: triangle + query point constructed per Voronoi region (3 vertices, 3 edges, interior), aspect "
-                "ratios to 1:1000, scale 1e-6..1e3, placed by a random rigid motion up to 1000 sizes from the origin; oracle = "
+                "ratios to 1:1000, scale 1e-12..1e6 (picometre-sized features in metres to megametres), placed by a random rigid motion up to 1000 sizes from the origin; oracle = "
                 "independent feature-brute-force closest point, |p-q|^2 vs returned d2, rigid-motion invariance. A case is "
                 "non-trivial when the target region is not vertex A and |a| > 10 triangle sizes; distinct = hash of the "
                 "serialised coordinates.",
@@ -30,7 +30,7 @@ PROPERTIES = {
         "jobs": [J("C05_kernel", quick={"cases": 12000, "shards": 16}, thorough={"cases": 600000, "shards": 16})],
     },
     "C01": {
-        "rule": "rapidcheck stateful histories on one live cell: start mesh from 6 construction families, or (1/4) a hub with 1-3 lobes glued on its faces (connected sums: cycles of three edges that bound no face) (+ random 1-to-3 / edge-split "
+        "rule": "rapidcheck stateful histories on one live cell: start mesh from 6 construction families, or (1/4) a hub with 1-3 lobes glued on its faces (connected sums: cycles of three edges that bound no face), and (1/12) the node ids scattered over a point list of ~1e5 slots with two node-disjoint edges whose Cantor pairings differ by exactly 2^32 (+ random 1-to-3 / edge-split "
                 "refinements, anisotropic scale, shear, radial bump, node noise, rigid motion, length units from nanometre-in-metres (3e-9) over um and unit scale to 1e4), then up to ~40 commands "
                 "drawn from {displace (noise / stretch / compress / bump / pinch), refresh normals, refine pass with or without swaps, "
                 "split / swap of the k-th edge, collapse of the k-th too-short edge, rebase, force-driven step}; the independent topology "
